@@ -64,6 +64,8 @@ static void runPlanInChild(const char* text, size_t len) {
 		ctx.property = jstr(plan, "property", "C00");
 		std::string profile = jstr(plan, "profile");
 		int timeout = jint(plan, "timeout_s", 30);
+		simReadWindow() = size_t(ju64(plan, "read_window", 0));
+		if (simReadWindow()) ctx.fault("F-CHUNK");
 		alarm(timeout);
 		auto fn = findProfile(profile);
 		if (!fn) {
